@@ -310,71 +310,64 @@ def coProg (tbl : List Proc) (t c : Nat) (iGo iEnd : Nat) (items : List Item) : 
 /-- the last (= fall-through, main) path of a procedure -/
 def mainPath (tbl : List Proc) (name : String) : List SEv := ((findProc tbl name).paths.getLast?).getD []
 
-/-! ### the event order of `Thread.end` at the pinned commit, and the proposed order -/
+/-! ### the event order of `Thread.end` before and after its repair -/
 
-/-- thread.go `end` today: lock t, lock caller, close(resumeCh), status/caller writes,
-    cleanupCloseStack (runs `__close` handlers: Lua code) **with both mutexes held**, send to the
-    caller, and only then `ReleaseBytes` on the shared context manager, then the deferred unlocks. -/
-def pinnedEnd : List SEv :=
+/-- HISTORICAL: thread.go `end` before commits 1103ae4 / f712ee8: lock t, lock caller, close(resumeCh),
+    status/caller writes, cleanupCloseStack (runs `__close` handlers: Lua code) **with both mutexes held**,
+    send to the caller, and only then `ReleaseBytes` on the shared context manager, then the deferred
+    unlocks.  Kept only for the two labelled examples in Props.C09 that show what the discipline rules out. -/
+def preFixEnd : List SEv :=
   [.lock .self, .lock .peer, .closeCh .self, .set .self, .run, .set .self, .send .peer, .touch,
    .unlock .peer, .unlock .self]
 
-/-- proposed order: run the close stack before taking the mutexes, release the accounted stack
+/-- the repaired order: run the close stack before taking the mutexes, release the accounted stack
     before handing control back -/
-def proposedEnd : List SEv :=
-  [.run, .lock .self, .lock .peer, .closeCh .self, .set .self, .set .self, .touch, .send .peer,
+def fixedEnd : List SEv :=
+  [.run, .lock .self, .lock .peer, .closeCh .self, .set .self, .touch, .send .peer,
    .unlock .peer, .unlock .self]
 
 def replaceEnd (tbl : List Proc) (p : List SEv) : List Proc :=
   tbl.map (fun pr => if pr.name = "end" then { pr with paths := [p] } else pr)
 
-/-- Resume / Start's goroutine at the pinned commit (used by the counterexample families only) -/
-def pinnedResume : List SEv :=
+/-- the main paths of Resume / Start's goroutine / Yield written out (used by the example families only) -/
+def exResume : List SEv :=
   [.lock .self, .lock .peer, .set .self, .unlock .self, .unlock .peer, .send .self, .recv .peer]
-def pinnedStartGo : List SEv := [.recv .self, .touch, .run, .touch, .callEnd]
+def exStartGo : List SEv := [.recv .self, .touch, .run, .touch, .callEnd]
 
-def pinnedYield : List SEv :=
+def exYield : List SEv :=
   [.lock .self, .lock .peer, .set .self, .unlock .self, .unlock .peer, .send .peer, .recv .self]
 
 def famOfList (l : List (List Ev)) : Nat → List Ev := fun g => l.getD g []
 
 /-- a family obeying `Disc` (three goroutines): main resumes coroutine 1, which yields back, then
-    resumes coroutine 2, which runs to completion, then coroutine 1 again, which finishes; `end`
-    in the PROPOSED order -/
+    resumes coroutine 2, which runs to completion, then coroutine 1 again, which finishes -/
 def famOK : Nat → List Ev := famOfList
-  [instPath 1 0 pinnedResume ++ [.touch] ++ instPath 2 0 pinnedResume ++ [.touch]
-     ++ instPath 1 0 pinnedResume ++ [.touch],
-   instPath 1 0 [.recv .self, .run] ++ instPath 1 0 pinnedYield ++ [.run] ++ instPath 1 0 proposedEnd,
-   instPath 2 0 [.recv .self, .run] ++ instPath 2 0 proposedEnd]
-
-/-- the kinds (procedure, event, reason) of violations of the discipline known in thread.go, both in
-    `end` (see known_findings.json): `cleanupCloseStack` runs `__close` handlers (Lua code) while holding
-    t.mux and caller.mux; `ReleaseBytes` touches the shared context manager after the send that hands
-    control back. -/
-def knownKinds : List (String × String × String) :=
-  [("end", "run", "with-mutex-held"), ("end", "touch", "without-baton")]
+  [instPath 1 0 exResume ++ [.touch] ++ instPath 2 0 exResume ++ [.touch]
+     ++ instPath 1 0 exResume ++ [.touch],
+   instPath 1 0 [.recv .self, .run] ++ instPath 1 0 exYield ++ [.run] ++ instPath 1 0 fixedEnd,
+   instPath 2 0 [.recv .self, .run] ++ instPath 2 0 fixedEnd]
 
 def Violation.kind (v : Violation) : String × String × String := (v.proc, v.ev, v.reason)
 
-/-- Race witness: main resumes coroutine 1 (Resume t=1 caller=0) and then allocates (`touch`);
-    coroutine 1's goroutine runs its body and ends (pinned `end`). -/
+/-- HISTORICAL race witness (pre-repair `end`): main resumes coroutine 1 (Resume t=1 caller=0) and then allocates (`touch`);
+    coroutine 1's goroutine runs its body and ends (pre-repair `end`). -/
 def famRace : Nat → List Ev := famOfList
-  [instPath 1 0 pinnedResume ++ [.touch],
-   instPath 1 0 pinnedStartGo ++ instPath 1 0 pinnedEnd]
+  [instPath 1 0 exResume ++ [.touch],
+   instPath 1 0 exStartGo ++ instPath 1 0 preFixEnd]
 
 def raceSched : List Act :=
   [.one 0, .one 0, .one 0, .one 0, .one 0, .sync 0 1,
    .one 1, .one 1, .one 1,
    .one 1, .one 1, .one 1, .one 1, .one 1, .one 1, .sync 1 0]
 
-/-- Deadlock witness: coroutine 1 is ended (error or close) with a pending to-be-closed variable whose
+/-- HISTORICAL deadlock witness (pre-repair `end`): coroutine 1 is ended (error or close) with a pending to-be-closed variable whose
     `__close` handler resumes coroutine 2: the handler runs inside `end` (the `run` event, both mutexes
     held) and is `Resume(t = 2, caller = 1)`, whose second event locks mutex 1 again. -/
 def famCloseResumes : Nat → List Ev := famOfList
-  [instPath 1 0 pinnedResume ++ [.touch],
+  [instPath 1 0 exResume ++ [.touch],
    instPath 1 0 [.recv .self, .touch, .run, .touch]
-     ++ instPath 1 0 (pinnedEnd.take 4) ++ instPath 2 1 pinnedResume ++ instPath 1 0 (pinnedEnd.drop 5),
-   instPath 2 1 pinnedStartGo ++ instPath 2 1 pinnedEnd]
+     ++ instPath 1 0 (preFixEnd.take 4) ++ instPath 2 1 exResume ++ instPath 1 0 (preFixEnd.drop 5),
+   instPath 2 1 exStartGo ++ instPath 2 1 preFixEnd]
 
 def deadlockSched : List Act :=
   [.one 0, .one 0, .one 0, .one 0, .one 0, .sync 0 1,
